@@ -183,7 +183,9 @@ func (k *KVStore) NewEntry() storage.Entry {
 
 // PutRaw sets the raw value for the given key.
 func (k *KVStore) PutRaw(hkey uint64, value []byte) error {
-	if uint64(len(value)) > k.tableSize {
+	// A table accepts an entry only if it is smaller than the table (see table.PutRaw).
+	// An entry of exactly the table size would make the loop below create tables forever.
+	if uint64(len(value)) >= k.tableSize {
 		return storage.ErrEntryTooLarge
 	}
 
@@ -235,7 +237,9 @@ func (k *KVStore) deleteFromOlderTables(hkey uint64) {
 
 // Put sets the value for the given key. It overwrites any previous value for that key
 func (k *KVStore) Put(hkey uint64, value storage.Entry) error {
-	if requiredSizeForAnEntry(value) > k.tableSize {
+	// A table accepts an entry only if it is smaller than the table (see table.Put).
+	// An entry of exactly the table size would make the loop below create tables forever.
+	if requiredSizeForAnEntry(value) >= k.tableSize {
 		return storage.ErrEntryTooLarge
 	}
 
